@@ -353,6 +353,11 @@ func checkMulti(rec *hx.Recorder, c *multiCase, labels map[string]int) (string, 
 // prints the accumulated destinations of every record.
 func childMain() {
 	raw, _ := hex.DecodeString(os.Getenv("VERIF_C18_CHILD"))
+	if pre, _ := hex.DecodeString(os.Getenv("VERIF_C18_PRELUDE")); len(pre) > 0 {
+		// a file of a type that does not hold records is decoded first:
+		// messages a file drops leave no trace
+		fit.Decode(bytes.NewReader(pre))
+	}
 	f, err := fit.Decode(bytes.NewReader(raw))
 	if err != nil {
 		fmt.Println("ERR", err)
@@ -389,9 +394,19 @@ func accStream(vals [][5]byte) *fitmodel.Stream {
 	return s
 }
 
+// preludeType, when not 0, makes the fresh-process child first decode the
+// same records in a file of this type (one that does not hold records).
+var preludeType byte
+
 func freshProcess(rec *hx.Recorder, s *fitmodel.Stream) (string, bool) {
 	cmd := exec.Command(os.Args[0])
 	cmd.Env = append(os.Environ(), "VERIF_C18_CHILD="+hex.EncodeToString(s.Bytes()), "VERIF_OUT=")
+	if preludeType != 0 && len(s.Recs) > 1 && len(s.Recs[1].Raw) == 1 {
+		ps := *s
+		ps.Recs = append([]fitmodel.Rec{}, s.Recs...)
+		ps.Recs[1] = fitmodel.Rec{Local: s.Recs[1].Local, Raw: []byte{preludeType}}
+		cmd.Env = append(cmd.Env, "VERIF_C18_PRELUDE="+hex.EncodeToString(ps.Bytes()))
+	}
 	out, err := cmd.Output()
 	if err != nil {
 		return fmt.Sprintf("HARNESS: child failed: %v", err), false
@@ -456,9 +471,14 @@ func TestC18(t *testing.T) {
 			}
 			rec.Eval("replay", 1)
 			if rp.Sub == "fresh-process" {
-				if msg, ok := freshProcess(rec, c.Streams[0]); !ok {
-					rec.Fail(rp.Sub, "", msg, &c)
+				for _, pt := range []byte{0, 5, 34, 2, 10} {
+					preludeType = pt
+					if msg, ok := freshProcess(rec, c.Streams[0]); !ok {
+						rec.Fail(rp.Sub, "", fmt.Sprintf("(file type decoded first in the child: %d) %s", pt, msg), &c)
+						break
+					}
 				}
+				preludeType = 0
 				return
 			}
 			if sig, msg, ok := checkMulti(rec, &c, map[string]int{}); !ok {
@@ -490,10 +510,20 @@ func TestC18(t *testing.T) {
 					vals = append(vals, v)
 				}
 				s := accStream(vals)
+				// every other case: the child first decodes the same
+				// records in a workout / segment / settings / totals file
+				preludeType = 0
+				if i%2 == 1 {
+					preludeType = []byte{5, 34, 2, 10}[(i/2)%4]
+				}
 				if msg, ok := freshProcess(rec, s); !ok {
+					if preludeType != 0 {
+						msg = fmt.Sprintf("(the child had decoded the same records in a file of type %d first, which does not hold records) %s", preludeType, msg)
+					}
 					rec.Fail("fresh-process", "", msg, &multiCase{FileTypes: []int{4}, Streams: []*fitmodel.Stream{s}})
 				}
 			}
+			preludeType = 0
 			rec.Eval("fresh-process", int64(nfp))
 			rec.NonTrivialEnum(int64(nfp))
 
